@@ -184,7 +184,9 @@ func c08Cases() []c08Case {
 	ibtpMut("extra-garbage", func(ib *pb.IBTP) { ib.Extra = []byte("\xff\xff\xff") })
 	ibtpMut("group-keys-more-than-vals", func(ib *pb.IBTP) { ib.Group = &pb.StringUint64Map{Keys: []string{"a", "b"}, Vals: []uint64{1}} })
 	ibtpMut("group-empty", func(ib *pb.IBTP) { ib.Group = &pb.StringUint64Map{} })
-	ibtpMut("group-garbage-ids", func(ib *pb.IBTP) { ib.Group = &pb.StringUint64Map{Keys: []string{"x", ""}, Vals: []uint64{0, math.MaxUint64}} })
+	ibtpMut("group-garbage-ids", func(ib *pb.IBTP) {
+		ib.Group = &pb.StringUint64Map{Keys: []string{"x", ""}, Vals: []uint64{0, math.MaxUint64}}
+	})
 	ibtpMut("to-remote-hub-unregistered", func(ib *pb.IBTP) { ib.To = "9999:c:s" })
 	ibtpMut("from-remote-hub-garbage-extra", func(ib *pb.IBTP) { ib.From = fix.HubID("c", "s"); ib.Extra = []byte("zz") })
 	// every method of the dispatch surface: arg vectors of length 0, n-1, n, n+1
